@@ -26,6 +26,10 @@
 (*                       is caught in Type1FontHeaderParser.get_encoding)   *)
 (*   "Type3SkewWidth"    Type3 widths are scaled by a+c of FontMatrix       *)
 (*                       (apply_matrix_norm(m,(1,1))) instead of a          *)
+(*   "BuiltinKeepsEarlier" a dup/put entry whose name has no Unicode value  *)
+(*                       leaves what the code had before (the standard      *)
+(*                       character, or an earlier entry) instead of         *)
+(*                       clearing it - the built-in twin of DiffKeepsBase   *)
 (*   "BuiltinStdIgnored" an embedded Type 1 program that declares           *)
 (*                       "/Encoding StandardEncoding def" (f.std) yields no *)
 (*                       dup/put entries, and the empty result replaces the *)
@@ -138,7 +142,10 @@ Step(m, f, dev) ==
               IF e.g \in Mappable THEN [m EXCEPT !.enc = [m.enc EXCEPT ![e.c] = GlyphV(e.g)], !.k = m.k + 1]
               ELSE IF e.g = "gErr" /\ "HeaderValueError" \in dev
                    THEN [m EXCEPT !.err = "ValueError", !.hit = Codes, !.pc = "done"]
-              ELSE [m EXCEPT !.k = m.k + 1]            \* KeyError caught: the code gets no entry
+              ELSE IF "BuiltinKeepsEarlier" \in dev
+                   THEN [m EXCEPT !.k = m.k + 1,          \* KeyError caught, entry left as it was
+                                  !.hit = IF m.enc[e.c] # None THEN m.hit \cup {e.c} ELSE m.hit]
+              ELSE [m EXCEPT !.enc = [m.enc EXCEPT ![e.c] = None], !.k = m.k + 1]   \* the code selects a glyph without Unicode value
     [] OTHER -> m
 
 \* PDFSimpleFont.to_unichr, then PDFLayoutAnalyzer.handle_undefined_char
